@@ -272,6 +272,9 @@ def body_variants(rule, r, asn4, n_rand):
              'nlri': ['10.1.0.0/16', '10.1.0.0/16']},
         ]
         out += [json_body(f) for f in fixed]
+        # an UPDATE that comes out longer than 4096 octets (the agent builds and sends what it is asked to)
+        out.append(json_body({'attr': {'1': 0, '2': [], '3': '10.0.0.1'},
+                              'nlri': ['10.%d.%d.0/24' % (i // 250, i % 250) for i in range(1100)]}))
         # outside the modelled message space (extended-community text of C17, MP_REACH of C07, unknown attribute):
         # issued for the oracle only
         out += [json_body(f) for f in (
@@ -301,7 +304,10 @@ def body_variants(rule, r, asn4, n_rand):
     elif rule == '/v1/peer/<peer_ip>/send/bin_update':
         ka = MARK + '001304'
         upd = MARK + '001702' + '00000000'
-        for v in (ka, upd, ka.upper(), ka + upd, 'ff', '00', ka[:-1], 'zz', 'f', '', ' ', 'ff ff', 'ää', 12, ['ff', 'ff'],
+        # two UPDATEs (unknown optional transitive attribute as padding) that together exceed the largest BGP message
+        pad = 'd0fa' + '%04x' % 2060 + '5a' * 2060
+        big = MARK + '%04x' % (19 + 4 + 2064) + '02' + '0000' + '%04x' % 2064 + pad
+        for v in (ka, upd, ka.upper(), ka + upd, big, big + big, 'ff', '00', ka[:-1], 'zz', 'f', '', ' ', 'ff ff', 'ää', 12, ['ff', 'ff'],
                   True, {'a': 1}, ''.join('%02x' % r.getrandbits(8) for _ in range(r.choice([1, 19, 64, 300])))):
             out.append(json_body({'binary_data': v}))
         out.append(json_body({'other': 1}))
